@@ -5,6 +5,7 @@
    lists, dicts with pairwise distinct str keys.  parse is the model of json.loads (JsonParse.v); canon sorts every
    dict by key: two values are the same JSON value iff their canonical forms are equal. *)
 From CCT Require Import Prelude Hex Json JsonParse.
+From CCT.Gen Require Pins.
 From CCT.Gen Require Params.
 From CCT.proofs Require Import HexFacts SigFacts FamilyFacts JsonLexFacts SortFacts JsonFacts.
 From Coq Require Import Permutation.
@@ -99,6 +100,16 @@ Example C07_format_examples :
   /\ parse (U"[1,]") = None /\ parse (U"01") = None /\ parse (U"""\u+123""") = None /\ parse (U"[1] x") = None.
 Proof. vm_compute. repeat split. Qed.
 
+(* BEGIN SOURCE PINS -- written by harness/mkpins.py; the list is what Gen/Pins.v held for the tree the model was validated against *)
+(* the functions of the package this property depends on (call-graph closure of its entry points), each with the fingerprint of its
+   logic (AST without docstrings, annotations, messages, local names): the model and the correspondence runs were validated against
+   exactly these; a change of logic in any of them breaks this obligation and the check then searches for a failing input *)
+Theorem C07_source_pinned : CCT.Gen.Pins.pinned_C07 =
+  [(U"common.canonserialize", U"64fc1dee1d7349d7a920");
+   (U"common.load_metadata_from_file", U"f65eb5087b9ad786f4ff")].
+Proof. reflexivity. Qed.
+(* END SOURCE PINS *)
+
 Print Assumptions C07_format_frozen.
 Print Assumptions C07_domain_meaning.
 Print Assumptions C07_ser_total.
@@ -110,3 +121,4 @@ Print Assumptions C07_order_independent.
 Print Assumptions C07_ser_fixpoint.
 Print Assumptions C07_surrogate_pair_collision.
 Print Assumptions C07_format_examples.
+Print Assumptions C07_source_pinned.
